@@ -6,7 +6,29 @@
    dual_ok, slack, cost) are LpCert's, instantiated at sources 0..nsrc-1 and sinks 0..nsnk-1:
      pb_feasible pb x := every source fully allocated /\ no sink above capacity /\ no negative entry
      pb_optimal  pb x := pb_feasible pb x /\ forall x', pb_feasible pb x' -> pb_cost pb x <= pb_cost pb x'
-   (x, x' range over ALL functions nat -> nat -> Z, not only over matrices). *)
+   (x, x' range over ALL functions nat -> nat -> Z, not only over matrices).
+
+   SCOPE OF THE CLAIMS (review finding C13/HIGH, finding F26 of known_findings.json).  Every theorem below is about the
+   ideal-integer (Z) model Ssp.v; "C13's domain" means: check() passes, INTEGER costs in [0, INT_MAX), total demand <=
+   total capacity.  The model is optimal for every such cost.  The C++ (CostType = int) equals the model only while no
+   int overflows:
+   * proved for costs <= INT_MAX/2 = 1073741823: c07_ssp_run_no_overflow (Properties_C07.v; every int / long long
+     intermediate of the whole run), sharp by c07_ssp_run_half_sharp (costs 2^30: `sendingCost_[i] + cost` = 2^31);
+   * proved for the float-cost constructor (the only one DensityLegalizer::reoptimize uses): costsFromIntegers scales to
+     about INT_MAX / (4 nbSinks), c07_float_problem_cost_dom + c07_ssp_run_no_overflow_scaled;
+   * REFUTED for integer costs in (INT_MAX/2, INT_MAX): transportation.cpp:453 wraps and solve() returns a non-optimal
+     plan or does not return (F26; witness TP 0 3 2 1 5 5 1 1 0 2000000000 2000000000 2100000000 2000000000 100: C++ cost
+     2100000000, optimum 100 = ssp's answer).  ./check C13 generates this class (stream bigcost) and reports KNOWN-FINDING.
+   TIE-BREAKING.  Ssp.v fixes ONE rule for equal-cost queue elements (q_push: stable insertion); no theorem here is
+   parametric in that choice.  About 10 % of the C++ plans differ from the model's (libstdc++'s heap yields another
+   equal-cost source); for those the C++'s optimality rests on the proved certificate checker (c13_check_plan_sound, run
+   on every C++ plan by ./check C13) and on the lemon optimum, not on the theorems about ssp.
+   FLOAT COSTS.  "Minimum cost" of a float-cost problem is with respect to the scaled integers costs() computed by the
+   C++ (costsFromIntegers is not modelled here; C07: c07_float_problem_cost_dom).  DensityLegalizer::reoptimize is not
+   modelled and not called by the check: the harness's flt stream emulates its call sequence.
+   ASSERTS.  Modelled as error outcomes: cpp:467, 516, 522, 526, 533, 609 and every top() of a possibly empty queue.  Not
+   modelled: cpp:46 (snk1 != snk2), 316 (increaseCapacity: 0 <= missing < nbSinks()), 560 (initQueues: the sink is full),
+   596 (non-empty queue, after a top() that is modelled). *)
 From Coq Require Import List ZArith Lia Bool.
 Import ListNotations.
 Require Import CV.LpCert CV.Ssp CV.SspProofs CV.SspSafety CV.SspF CV.SspTree CV.SspOpt CV.SspTotal CV.SspFuelCex CV.SspFuelMono.
@@ -34,8 +56,9 @@ Proof. exact solve_checked_sound. Qed.
 
 (* [F], partial correctness of the RAW algorithm, all inputs, no size bound: every plan returned by
    the model of TransportationSuccessiveShortestPath::run() on a problem accepted by check() is
-   feasible -- every source fully allocated, no sink above its capacity, no negative allocation --
-   whatever the tie-breaking inside the queues did.  No hypothesis on total demand/capacity: when
+   feasible -- every source fully allocated, no sink above its capacity, no negative allocation.
+   (The proof uses a single fact about queues, q_push_head, but the statement is about the model's own tie-breaking
+   rule; see TIE-BREAKING above.)  No hypothesis on total demand/capacity: when
    demand exceeds capacity the model cannot return a plan.
    _partial: this theorem states feasibility only.  The rest of C13 for the raw algorithm -- a plan IS
    returned and it is of minimum cost -- is c13_ssp_optimal (minimality of every returned plan, all
@@ -48,8 +71,8 @@ Proof. exact ssp_feasible_checked. Qed.
 (* [F], safety of the RAW algorithm on the whole domain of C13, no size bound: for every problem accepted by
    check() with costs in [0, INT_MAX) and total demand <= total capacity, the model of run() either returns a
    feasible plan or exhausts the fuel of one of its loops.  It never fails an assertion (cpp:467, 516, 522, 526,
-   533, 609) and never calls top() on an empty queue (cpp:47/55 reached from 502, 521, 535, 538, 541), whatever
-   the tie-breaking did.  Invariants: G (previous theorem), Qinv (every full sink's queues contain all sources
+   533, 609) and never calls top() on an empty queue (cpp:47/55 reached from 502, 521, 535, 538, 541).
+   Invariants: G (previous theorem), Qinv (every full sink's queues contain all sources
    with a non-zero allocation there and have such a source on top), Tinv (sinkParent_ points from full sinks to
    sinks of finite sendingCost_; a parentless sink of finite cost has spare capacity; free sinks cost 0), and the
    accounting "outstanding demand <= sum of remainingCapa_".
@@ -76,7 +99,7 @@ Proof. exact send_loop_never_out_of_fuel. Qed.
 
 (* ---- unbounded optimality and termination of the RAW algorithm (SspTree.v, SspOpt.v, SspTotal.v)
 
-   Invariants, all proved for every problem of C13's domain (no size bound), whatever the tie-breaking in the queues:
+   Invariants, all proved for every problem of C13's domain (no size bound), for the model's queue rule (q_push):
    * Q2inv: every queue of a full sink is sorted by cost and every element (c, i) of queue (a,b) has c = movingCost(i,a,b);
      with Qinv: top() of queue (a,b) is a source of MINIMUM moving cost among the sources allocated at a;
    * Pot: sendingCost_ is a potential of the current allocation (>= 0, 0 on sinks with spare capacity, and
@@ -87,7 +110,8 @@ Proof. exact send_loop_never_out_of_fuel. Qed.
    potential; augmenting along the tree keeps Pot for the OLD labels (walk2_step_P2, send3F), which are the lower bound
    that makes the next updateTree correct and terminating. *)
 
-(* [F] MINIMUM COST of the raw algorithm, all inputs of C13's domain, no size bound, no checker: every plan the
+(* [F] MINIMUM COST of the raw algorithm (ideal-Z model; see SCOPE above for the C++), all inputs of C13's domain, no
+   size bound, no checker: every plan the
    line-by-line model of run() returns is feasible and costs no more than any feasible plan (plans = arbitrary
    functions nat -> nat -> Z).  pb_optimal pb (plan_f x) unfolds to
      pb_feasible pb (plan_f x) /\ forall x', pb_feasible pb x' -> plan_cost pb x <= pb_cost pb x'.
